@@ -14,6 +14,18 @@ legs: MC   TLC checks the laws of the inventory algebra (monoid, F(a+b) = F(a)+F
       C2S  windows of the Beancount example ledger and seeded random ledgers: the driver records positions, masks,
            the balance column, per-row f(position), sums, f of sums and grouped sums; TLC (Trace_Balance) judges them
            with SerialRows and the Inventory operators.
+      sum() over INVENTORY values (spec/InvSum.tla, spec/SumStore.tla; harness/sumstore.py): the operand of sum() is
+      then a mutable object that can outlive the statement and that several aggregate nodes of one statement share.
+      MC   TLC checks the aggregate mechanism with object identity (a heap; per-group stores, one slot per aggregate
+           node, initialise / update / finalise) on every small table x history of statements (1..3 nodes over the same
+           operand, f of the sum next to the sum of f, GROUP BY, HAVING): every statement of a history returns
+           InvSum!Expected of the table AS DEFINED, the cells are never changed, accumulators are nobody else's object.
+           Non-vacuity: an empty accumulator that adopts the operand object must be rejected.
+      S2C  every TLC-emitted case is also realised (a) as a sub-select of partial sums aggregated again and (b) as a user
+           table holding inventories (chunks of the ledger, NULL and empty cells) shared by two connections, on which a
+           history of statements runs; expectations are the sums / f-sums TLC emitted for the case.
+      C2S  tables of per-transaction inventories from the example ledger and random ledgers, histories of 2..4 random
+           statements; the table is recorded before anything runs; TLC (Trace_SumStore) judges every statement.
       A mismatch is replayed by TLC on the mechanism as shipped before fix 678e809 (Trace_Balance_shipped.cfg, one
       process-wide cache entry): if that explains the observation exactly and the statement has the matching shape the
       violation gets the key of that defect (listed as fixed in known_findings.d), otherwise a key naming the statement shape.
@@ -24,6 +36,7 @@ import json
 import random
 
 from harness import balance as hb
+from harness import sumstore as ss
 from harness.core import MachineryError
 
 KNOWN_KEY = 'balance:interposed-scan:double-count'
@@ -106,11 +119,80 @@ def replay_case(ctx, c, rseed, suspects, sample=False):
     # -- aggregates
     fs = c['fs']
     for scope, hom, where in (('all', c['homall'], []), ('sel', c['homsel'], ["account ~ ':Sel'"])):
-        ok &= check_hom(ctx, conn, fs, hom, where, scale, case, scope, as_text=sample and scope == 'sel')
+        ok &= check_hom(ctx, conn, fs, hom, where, scale, case, scope, rng, as_text=sample and scope == 'sel')
+    # -- sum() over inventory values that outlive the statement: a user table, a history of statements
+    ok &= check_table_history(ctx, c, conn, entries, rng, scale, case, as_text=sample)
     return ok
 
 
-def check_hom(ctx, conn, fs, hom, where, scale, case, scope, as_text=False):
+def node_expectation(nd, exp, fs, scale):
+    """the value TLC emitted for the case that node nd must deliver on a group whose expectations are exp"""
+    if nd[0] == 'sum':
+        return hb.spec_inventory(exp['tot'], scale)
+    return hb.spec_inventory(exp['f'][fs.index(nd[1])], scale)
+
+
+def compare_stmt(bad, got, s, hom, fs, scale, what):
+    """rows of one aggregate statement over inventory values against the case's expectations (total / per group)"""
+    if s['grouped']:
+        want = {g: hom['groups'][g - 1] for g in (1, 2) if hom['ng'][g - 1] > 0
+                and (not s['having'] or hom['groups'][g - 1]['tot'])}
+    else:
+        want = {0: hom['total']}
+    keys = sorted(r[0] for r in got)
+    if keys != sorted(want):
+        bad('sum:inventory:groups', 'groups returned by %s' % what, sorted(want), keys)
+        return
+    for key, vals in got:
+        for nd, v in zip(s['nodes'], vals):
+            e = node_expectation(nd, want[key], fs, scale)
+            if v != e:
+                bad('sum:inventory:%s' % ss.node_name(nd), '%s of %s, %s' % (
+                    ss.node_expr(nd), 'group %s' % key if s['grouped'] else 'all rows', what), hb.show_inv(e), hb.show_inv(v))
+
+
+def group_key(v):
+    return int(v[1:]) if isinstance(v, str) and v[:1] == 'G' and v[1:].isdigit() else v
+
+
+def check_table_history(ctx, c, conn, entries, rng, scale, case, as_text=False):
+    """the ledger of the case cut into chunks, one table row (group, Inventory of the chunk) per chunk -- by partition
+    additivity (MC_Inventory) the sums over the rows are the sums TLC emitted for the ledger -- plus NULL and empty cells
+    in the groups that have rows; 2..3 statements one after the other on the same table objects"""
+    hom = c['homall']
+    if hom['n'] == 0:
+        return True                 # an aggregate over no rows at all: C02
+    from beancount.core import inventory
+    ok = True
+
+    def bad(key, clause, expected, observed):
+        nonlocal ok
+        ok = False
+        ctx.violation(key, clause, dict(case, scope='table'), 'S2C', expected, observed)
+    chunks, open_ = [], {}
+    for pos, g in zip(c['ledger'], c['grp']):
+        if g not in open_ or rng.random() < 0.5:
+            open_[g] = []
+            chunks.append((g, open_[g]))
+        open_[g].append(pos)
+    rows = [(g, ss.inventory_of(ps, scale)) for g, ps in chunks]
+    for _ in range(rng.choice((0, 0, 1, 2))):
+        rows.insert(rng.randint(0, len(rows)), (rng.choice(chunks)[0], rng.choice((None, inventory.Inventory()))))
+    sess = ss.Session([conn] + ([hb.connect(entries)] if rng.random() < 0.1 else []), ss.make_table(rows))
+    fs = c['fs']
+    try:
+        for n in range(rng.choice((2, 2, 2, 3))):
+            s = ss.random_stmt(rng, fs)
+            got = ss.project(sess.execute(s, rng, as_text=as_text and n == 0), s)
+            ctx.case(None)
+            compare_stmt(bad, got, s, hom, fs, scale, 'statement %d on the table: %s' % (n + 1, ss.stmt_text(s)))
+    except Exception as ex:  # noqa
+        bad('sum:inventory:exception:%s' % type(ex).__name__, 'aggregate statement over a table of inventories raised %r' % (ex,),
+            None, None)
+    return ok
+
+
+def check_hom(ctx, conn, fs, hom, where, scale, case, scope, rng, as_text=False):
     ok = True
 
     def bad(key, clause, expected, observed):
@@ -136,11 +218,20 @@ def check_hom(ctx, conn, fs, hom, where, scale, case, scope, as_text=False):
         grows = hb.run_select(conn, [('leaf(account)', 'g')] + hom_targets(fs), None, where, ['g'])
         inner = ([('leaf(account)', 'g'), ('sum(position)', 's'), ('cost(sum(position))', 'c'),
                   ('sum(units(position))', 'u')], None, where, ['g'])
-        prows = hb.run_select(conn, [('sum(s)', 't'), ('sum(c)', 'tc'), ('sum(u)', 'tu')], inner, as_text=as_text)
+        prows = hb.run_select(conn, [('sum(s)', 't'), ('sum(c)', 'tc'), ('sum(u)', 'tu')], inner, as_text=as_text) \
+            if as_text or rng.random() < 0.3 else None
+        # partial sums (per account and day) aggregated again: the operand of sum() is an inventory, one to three
+        # aggregate nodes read it (sum, f of the sum, sum of f), with / without GROUP BY and HAVING
+        inner2 = ([('account', 'acc'), ('date', 'd'), ('sum(position)', 'inv')], None, where, ['acc', 'd'])
+        s2 = ss.random_stmt(rng, fs)
+        irows = None
+        if as_text or rng.random() < 0.6:
+            irows = ss.project(conn.execute(ss.stmt_ast(s2, hb.select(*inner2), key='leaf(acc)')).fetchall(), s2)
+            irows = [[group_key(k), v] for k, v in irows]
     except Exception as ex:  # noqa
         bad('sum:exception:%s' % type(ex).__name__, 'aggregate statement raised %r' % (ex,), None, None)
         return False
-    ctx.case(None, n=3)
+    ctx.case(None, n=4)
     empty = {'tot': [], 'f': [[] for _ in fs]}
     if hom['n'] == 0:
         # "no qualifying row yields no row" belongs to C02; an all-empty row is accepted here as well
@@ -164,7 +255,9 @@ def check_hom(ctx, conn, fs, hom, where, scale, case, scope, as_text=False):
         units_i = next(i for i, f in enumerate(fs) if f[0] == 'units')
         exp = [hb.spec_inventory(hom['total']['tot'], scale), hb.spec_inventory(hom['total']['f'][cost_i], scale),
                hb.spec_inventory(hom['total']['f'][units_i], scale)]
-        if len(prows) != 1:
+        if prows is None:
+            pass                    # sampled: the statement below subsumes it
+        elif len(prows) != 1:
             bad('sum:partition:rows', 'one row for sum over group sums', 1, len(prows))
         else:
             got = [hb.proj_any(v) for v in prows[0]]
@@ -172,6 +265,8 @@ def check_hom(ctx, conn, fs, hom, where, scale, case, scope, as_text=False):
                 if e != g:
                     bad('sum:partition:%s' % what, 'sum over the group sums of %s = sum of the whole' % what,
                         hb.show_inv(e), hb.show_inv(g))
+        if irows is not None:
+            compare_stmt(bad, irows, s2, hom, fs, scale, ss.stmt_text(s2, '(%s)' % hb.select_text(*inner2), key='leaf(acc)'))
     return ok
 
 
@@ -377,6 +472,121 @@ def record_hom(ctx, conn, rng, masks, groups, dates, out, prices=None):
     out.append(line)
 
 
+# ---- C2S: tables holding inventories, histories of aggregate statements ---------------------------------------------
+ISUM_FS_PLAIN = (('units', '', 0), ('cost', '', 0))
+
+
+def record_isum(ctx, conn, entries, rng, dates, out, prices=None):
+    """one table (a row per transaction: group = a key of the transaction, cell = the Inventory of its postings'
+    positions, a few NULL / empty cells), recorded BEFORE anything runs, and a history of 2..4 statements -> one line"""
+    from beancount.core import data, inventory
+    txns = [e for e in entries if isinstance(e, data.Transaction)]
+    if not txns:
+        return
+    keyf = rng.choice((lambda e: e.date.month % 3, lambda e: e.postings[0].account.split(':')[1],
+                       lambda e: len(e.postings) % 2, lambda e: 0))
+    gids = {}
+    rows = []
+    for e in txns[:rng.randint(2, 24)]:
+        inv = inventory.Inventory()
+        for p in e.postings:
+            inv.add_position(p)
+        rows.append((gids.setdefault(keyf(e), len(gids) + 1), inv))
+    for _ in range(rng.choice((0, 0, 1, 2))):
+        rows.insert(rng.randint(0, len(rows)), (rng.randint(1, len(gids) + 1), rng.choice((None, inventory.Inventory()))))
+    before = [(g, hb.proj_inventory(v)) for g, v in rows]          # fresh dictionaries: the table as defined
+    fs = list(ISUM_FS_PLAIN)
+    if prices is not None:
+        fs += [('value', '', 0), ('value', '', rng.choice(dates)), ('convert', 'USD', 0), ('convert', 'CAD', 0),
+               ('convert', 'CAD', rng.choice(dates))]
+    fs = [list(f) for f in fs]
+    sess = ss.Session([conn] + ([hb.connect(entries)] if rng.random() < 0.25 else []), ss.make_table(rows))
+    hist = []
+    for n in range(rng.randint(2, 4)):
+        s = ss.random_stmt(rng, fs)
+        try:
+            got = ss.project(sess.execute(s, rng, as_text=rng.random() < 0.05), s)
+        except Exception as ex:  # noqa
+            ctx.violation('sum:inventory:exception:%s' % type(ex).__name__, 'aggregate statement over a table of '
+                          'inventories raised %r' % (ex,), {'statement': ss.stmt_text(s)}, 'C2S')
+            return
+        hist.append((s, got))
+        ctx.case('isum:%s:%d:%d' % (ss.stmt_text(s), len(rows), n))
+    try:
+        if any(v is None for _, got in hist for _, vals in got for v in vals):
+            raise hb.OutOfDomain('NULL aggregate')       # reported below
+        k = max([0] + [hb.inv_places(v) for _, v in before if v] + [hb.inv_places(v) for _, got in hist for _, vals in got
+                                                                   for v in vals]
+                + ([hb.places(p[3]) for p in prices] if prices else []))
+        sc = 10 ** k
+        jtab = [[g, v is None, hb.json_inventory(v, sc) if v else []] for g, v in before]
+        jprices = [[b, q, d, hb.scaled_int(r, sc)] for b, q, d, r in (prices or [])]
+        # the operators are applied to every cell and to every (partial) sum: all lots, with the absolute total
+        lots = {}
+        for _, v in before:
+            for key, num in (v or {}).items():
+                lots[key] = lots.get(key, 0) + abs(num)
+        allpos = [hb.json_position((key, num), sc) for key, num in lots.items()]
+        if not mul_in_domain(allpos, jprices, sc):
+            ctx.skipped += 1
+            return
+        stmts = [{'nodes': s['nodes'], 'grouped': s['grouped'], 'having': s['having'],
+                  'rows': [[key, [hb.json_inventory(v, sc) for v in vals]] for key, vals in got]} for s, got in hist]
+        line = {'k': 'isum', 'id': len(out) + 1, 'sc': sc, 'prices': jprices, 'tab': jtab, 'stmts': stmts}
+    except hb.OutOfDomain as ex:
+        if 'NULL aggregate' in str(ex):
+            ctx.violation('sum:inventory:null', 'an aggregate over inventories returned NULL',
+                          {'statements': [ss.stmt_text(s) for s, _ in hist]}, 'C2S')
+        else:
+            ctx.skipped += 1
+        return
+    line['_text'] = ' ; '.join(ss.stmt_text(s) for s, _ in hist)
+    out.append(line)
+
+
+def validate_isum(ctx, lines):
+    """TLC (Trace_SumStore) judges every statement of every recorded history with InvSum!Expected"""
+    import copy
+    probes = []
+    for ln in lines:
+        tgt = next((r for x in ln['stmts'] for r in x['rows'] if any(r[1])), None)
+        if tgt is not None:
+            c = copy.deepcopy(ln)
+            row = next(r for x in c['stmts'] for r in x['rows'] if any(r[1]))
+            next(v for v in row[1] if v)[0][1] += 1
+            probes.append(c)
+            break
+    path = ctx.path('c12_isum.ndjson')
+    with open(path, 'w') as f:
+        for ln in lines + probes:
+            f.write(json.dumps({k: v for k, v in ln.items() if not k.startswith('_')}) + '\n')
+    res = ctx.tlc('Trace_SumStore', 'Trace_SumStore.cfg', leg='C2S', workers=1, env={'TRACE_FILE': path},
+                  timeout=ctx.pick(600, 3000), jvm=('-Xss64m',))
+    verdicts = [p for p in res.printed if isinstance(p, dict)]
+    consumed = [p for p in verdicts if p.get('verdict') == 'consumed']
+    if len(consumed) != 1 or consumed[0]['lines'] != len(lines) + len(probes):
+        raise MachineryError('inventory-sum trace not consumed: %s of %d lines (%s)' % (
+            consumed, len(lines) + len(probes), res.errors[:2]))
+    rejected = {p['line']: p for p in verdicts if p.get('verdict') == 'rejected'}
+    probe_lines = set(range(len(lines) + 1, len(lines) + len(probes) + 1))
+    if not probes or not probe_lines <= set(rejected):
+        raise MachineryError('binding self-test: the corrupted inventory-sum line was not rejected')
+    nrej = 0
+    for n, rj in sorted(rejected.items()):
+        if n in probe_lines:
+            continue
+        nrej += 1
+        ln = lines[n - 1]
+        x = ln['stmts'][rj['stmt'] - 1]
+        s = ss.stmt(x['nodes'], x['grouped'], x['having'])
+        what = 'groups' if not rj['node'] else ss.node_name(x['nodes'][rj['node'] - 1])
+        ctx.violation('sum:inventory:%s' % what,
+                      'statement %d of the history (%s) on a table holding inventories: %s rejected by TLC' % (
+                          rj['stmt'], ss.stmt_text(s), what), {'kind': 'trace-isum', 'line': ln, 'verdict': rj}, 'C2S')
+    ctx.traces += len(lines) - nrej
+    return nrej
+
+
 def mul_in_domain(jpos, jprices, sc):
     """TLC integers are 32 bit and Mul must be exact: every product the operators can form for these positions
     (number x cost, number x any rate quoted for the currency, x any rate quoted for that rate's quote currency)
@@ -538,6 +748,12 @@ def run(ctx):
         ctx.notes.append('the shipped-cache counterexample found by TLC is not the B,S,B target list')
     ctx.leg('MC', shipped_counterexample='targets = <<"B","S","B">>: the interposed scan evicts the entry, the second '
             'reference adds the posting again' if '"B", "S", "B"' in r1.behaviour.replace('\n', ' ') else 'see notes')
+    # ---- MC: sum() over inventory values (objects with identity, several nodes over one operand, histories)
+    res = ctx.tlc('MC_SumStore', ctx.pick('MC_SumStore.cfg', 'MC_SumStore_t.cfg'), leg='MC-sum-inventory', workers=ctx.pick(4, 16))
+    if res.violated:
+        ctx.violation('spec:sumstore:' + ','.join(res.violated), 'TLC violates the property on the property-conforming '
+                      'aggregate mechanism', {'behaviour': res.behaviour[:3000]}, 'MC')
+    ctx.tlc('MC_SumStore', 'MC_SumStore_adopt.cfg', leg='MC-nonvacuity', expect_violation='ResultInv', workers=4)
     # ---- S2C
     ncases = ctx.pick(1000, 16000)
     w = 8
@@ -565,6 +781,7 @@ def run(ctx):
     ctx.leg('S2C', cases=len(cases), mismatching_cases=nbad, features=seen)
     # ---- C2S
     lines = []
+    ilines = []
     ex = example_entries(ctx.seed)
     nwin = ctx.pick(40, 400)
     for _ in range(nwin):
@@ -576,6 +793,7 @@ def run(ctx):
             record_serial(ctx, conn, npost, rng, EX_MASKS, lines, suspects)
         for _ in range(3):
             record_hom(ctx, conn, rng, EX_MASKS, EX_GROUPS, EX_DATES, lines)
+        record_isum(ctx, conn, entries, rng, EX_DATES, ilines)
     nrnd = ctx.pick(60, 700)
     for _ in range(nrnd):
         entries, npost, prices = random_ledger(rng, rng.randint(3, 40))
@@ -584,6 +802,7 @@ def run(ctx):
             record_serial(ctx, conn, npost, rng, RND_MASKS, lines, suspects)
         for _ in range(3):
             record_hom(ctx, conn, rng, RND_MASKS, RND_GROUPS, RND_DATES, lines, prices=prices)
+        record_isum(ctx, conn, entries, rng, RND_DATES, ilines, prices=prices)
     if lines:
         ctx.sample({'leg': 'C2S', 'line': {k: (v if not isinstance(v, list) else v[:3]) for k, v in lines[0].items()}})
     nops = sum(1 for ln in lines if ln['k'] == 'hom' and ln['op'])
@@ -593,6 +812,13 @@ def run(ctx):
             rejected=nrej, example_windows=nwin, random_ledgers=nrnd)
     if not nops:
         raise MachineryError('vacuity: no hom line was in the domain of the operators')
+    if len(ilines) < (nwin + nrnd) // 4:
+        raise MachineryError('vacuity: only %d of %d inventory-table histories were in the domain' % (len(ilines), nwin + nrnd))
+    ctx.sample({'leg': 'C2S', 'history': ilines[0]['_text'], 'table_rows': ilines[0]['tab'][:3]})
+    nrej_i = validate_isum(ctx, ilines)
+    ctx.leg('C2S', inventory_table_histories=len(ilines), statements_judged=sum(len(ln['stmts']) for ln in ilines),
+            histories_rejected=nrej_i,
+            statements_with_several_nodes=sum(1 for ln in ilines for x in ln['stmts'] if len(x['nodes']) > 1))
     classify(ctx, suspects)
     ctx.exhaustive = False
 
@@ -616,6 +842,15 @@ def replay(ctx, rep):
         res = ctx.tlc('Trace_Balance', 'Trace_Balance.cfg', leg='C2S', workers=1, env={'TRACE_FILE': path})
         rej = [p for p in res.printed if isinstance(p, dict) and p.get('verdict') == 'rejected']
         print('replay: recorded line', 'rejected by TLC: %s' % rej if rej else 'accepted by TLC')
+        return 1 if rej else 0
+    if case.get('kind') == 'trace-isum':
+        ln = case['line']
+        path = ctx.path('replay_isum.ndjson')
+        with open(path, 'w') as f:
+            f.write(json.dumps({k: v for k, v in ln.items() if not k.startswith('_')}) + '\n')
+        res = ctx.tlc('Trace_SumStore', 'Trace_SumStore.cfg', leg='C2S', workers=1, env={'TRACE_FILE': path})
+        rej = [p for p in res.printed if isinstance(p, dict) and p.get('verdict') == 'rejected']
+        print('replay: recorded history', 'rejected by TLC: %s' % rej if rej else 'accepted by TLC')
         return 1 if rej else 0
     print('replay: case kind not replayable standalone; re-run the check')
     return 2
